@@ -358,6 +358,12 @@ O(id='asn_strtoumax_lim.edge2', props=['C16'], kind='bounded', entry='h_strto_ed
 O(id='asn_strtoimax_lim.edge2', props=['C16'], kind='bounded', entry='h_strto_edge', functions=['asn_strtoimax_lim'], defines=['VF_MAXTXT=26'],
   unwind=30, bound=TE2, min_props=30, timeout=900, **INT_SAT)
 
+# ---------------------------------------------------------------- BIT STRING over OER
+O(id='BIT_STRING_encode_oer', props=['C02', 'C06', 'C07'], kind='bounded', entry='h_BIT_STRING_encode_oer', harness='harness/h_bitstring_oer.c',
+  units=[SK + 'BIT_STRING_oer.c', SK + 'oer_support.c'], functions=['BIT_STRING_encode_oer'], fp_restrict=[(r'::cb$', ['vf_cb'])],
+  unwind=18, bound='bit strings of 0..4 octets, every int bits_unused, size constraint -1..64 bits, with/without buffer; callback may fail at any call',
+  min_props=50, timeout=600)
+
 UNVERIFIED = {
  'C07': ['asn_encode_to_buffer / asn_encode_to_new_buffer / uper_encode_to_buffer / uper_encode_to_new_buffer with a UPER type encoder: obligations exist (tier experimental) but do not discharge (symbolic-length memcpy of the 32-octet bit scratch space runs out of memory); asn_encode with UPER is covered',
          'every constructed / generated type encoder is assumed to follow the operation-slot convention enumerated by the stub encoder',
